@@ -355,16 +355,39 @@ for X, G_ in GAMES.items():
                                                 f"forall(k, {NT}, {NTOT} + 2, my_rewards[k] == 0)"]},
              after_call={f"{G_['groups'][0][0]}#0": after_call0},
              after_extend=after_ext,
-             ensures_at_cut=[f"len(transition_list) == {NTOT} + 2"] + pos + [
-                 f"transition_list[{NTOT}] == [(1, {NTOT})]", f"transition_list[{NTOT} + 1] == [(1, {NTOT} + 1)]",      # absorbing loser and winner
-                 f"my_final_states == [{NTOT} + 1]",                                                                      # the only final state is the winner
-                 f"len(my_players) == {NTOT} + 2",
-                 f"forall(k, 0, {NT}, my_players[k] == 'Player 2')",
-                 f"forall(k, {NT}, {1 + G_['p1_groups']} * ({NT}), my_players[k] == 'Player 1')",
-                 f"forall(k, {1 + G_['p1_groups']} * ({NT}), {NTOT} + 2, my_players[k] == 'Probabilistic')",
-                 f"len(my_rewards) == {NTOT} + 2",
-                 f"forall(a, 0, length, forall(b, 0, width, my_rewards[Idx(a, b, width)] == rewards[a][b]))",                # the tile's reward is collected on the light's turn
-                 f"forall(k, {NT}, {NTOT} + 2, my_rewards[k] == 0)"],
+             # stated over the VALUES of the dict the function goes on to write (cut('<key>')), not over the temporaries that hold them
+             ensures_at_cut=[c_.replace('transition_list', "cut('transition_list')") for c_ in [f"len(transition_list) == {NTOT} + 2"] + pos] + [
+                 f"cut('transition_list')[{NTOT}] == [(1, {NTOT})]", f"cut('transition_list')[{NTOT} + 1] == [(1, {NTOT} + 1)]",      # absorbing loser and winner
+                 f"cut('final_states') == [{NTOT} + 1]",                                                                      # the only final state is the winner
+                 f"len(cut('players')) == {NTOT} + 2",
+                 f"forall(k, 0, {NT}, cut('players')[k] == 'Player 2')",
+                 f"forall(k, {NT}, {1 + G_['p1_groups']} * ({NT}), cut('players')[k] == 'Player 1')",
+                 f"forall(k, {1 + G_['p1_groups']} * ({NT}), {NTOT} + 2, cut('players')[k] == 'Probabilistic')",
+                 f"len(cut('rewards')) == {NTOT} + 2",
+                 f"forall(a, 0, length, forall(b, 0, width, cut('rewards')[Idx(a, b, width)] == rewards[a][b]))",                # the tile's reward is collected on the light's turn
+                 f"forall(k, {NT}, {NTOT} + 2, cut('rewards')[k] == 0)"],
              list_eq_structural=True,
              props=['C08', 'C11'])
 
+
+
+# ------------------------------------------------------------------ write_robots (C08, C11): the wiring of the three writers
+# The file named by the caller is opened for writing, and each writer receives the board and exactly the probabilities its game
+# uses, in the order of its parameters (A: tile; B: tile, robot; C: tile, robot, light). The writers are called by contract.
+contract('write_preamble', external_for_main=True,
+         params={'my_file': FILE, 'length': INT, 'width': INT, 'moves': LLI, 'rewards': LLI, 'loose_tiles': LLI}, requires=[], ensures=[], modifies={}, props=[])
+_SAME_BOARD = ["length == c_length", "width == c_width", "moves == c_moves", "rewards == c_rewards", "loose_tiles == c_loose"]
+contract('write_robots',
+         params={'file_name': STR, 'length': INT, 'width': INT, 'moves': LLI, 'rewards': LLI, 'loose_tiles': LLI, 'prob_tile_break': REAL,
+                 'prob_robot_break': REAL, 'prob_light_break': REAL},
+         locals={'my_file': FILE},
+         requires=BOARD_OK, modifies={},
+         ensures=["__path == file_name", "__mode == 'w'"],
+         alias_for_asserts={'c_length': 'length', 'c_width': 'width', 'c_moves': 'moves', 'c_rewards': 'rewards', 'c_loose': 'loose_tiles',
+                            'c_tb': 'prob_tile_break', 'c_rb': 'prob_robot_break', 'c_lb': 'prob_light_break'},
+         call_asserts={'write_robot_A': _SAME_BOARD + ["prob_tile_break == c_tb"],
+                       'write_robot_B': _SAME_BOARD + ["prob_tile_break == c_tb", "prob_robot_break == c_rb"],
+                       'write_robot_C': _SAME_BOARD + ["prob_tile_break == c_tb", "prob_robot_break == c_rb", "prob_light_break == c_lb"],
+                       'write_preamble': _SAME_BOARD},
+         list_eq_structural=True,
+         props=['C08', 'C11'])
